@@ -346,6 +346,15 @@ class Models:
         return ok(st, VBool(self.isinstance_term(eng, v, c, st, node)))
 
     def isinstance_term(self, eng, v, c, st, node=None):
+        if isinstance(v, VNodeValue):
+            # node.value is a str for scalar nodes, a list otherwise
+            n = eng.node_term(v.node, st)
+            cn = c.name if isinstance(c, VExt) else None
+            if cn == 'str':
+                return nfield(n, 'kind') == so.K_SCALAR
+            if cn == 'list':
+                return z3.Or(nfield(n, 'kind') == so.K_SEQ,
+                             nfield(n, 'kind') == so.K_MAP)
         if isinstance(c, VTuple):
             return disj([self.isinstance_term(eng, v, x, st, node)
                          for x in c.items])
@@ -509,7 +518,9 @@ class Models:
         v = args[0]
         if isinstance(v, (VListC, VTuple)):
             return ok(st, VListC(v.items))
-        if isinstance(v, (VSeq, VRefSeq, VWrapSeq)):
+        if isinstance(v, (VSeq, VRefSeq, VWrapSeq, VSetStr)):
+            # (a list of distinct strings used only for membership/removal
+            # is modelled as a set of strings)
             return ok(st, v)
         if isinstance(v, VNodeValue):
             return [(s, x) for s, x in eng.resolve_node_value(v, st, node)]
@@ -798,6 +809,17 @@ class Models:
                 return self.store_back(
                     eng, target, VSeq(seq_append(recv.t, t), recv.elem), st,
                     node)
+        if isinstance(recv, VSetStr) and name == 'remove' and isinstance(
+                args[0], VStr):
+            out = []
+            for s2, inn in eng.branch(st, z3.Select(recv.t, args[0].t)):
+                if inn:
+                    out.extend(self.store_back(
+                        eng, target, VSetStr(z3.Store(
+                            recv.t, args[0].t, z3.BoolVal(False))), s2, node))
+                else:
+                    out.append((s2, Raise(VExc('ValueError', (), line))))
+            return out
         if isinstance(recv, VSetStr) and name == 'add':
             x = args[0]
             if isinstance(x, VPV):
@@ -1273,6 +1295,10 @@ class Models:
             return VSeq(so.EMPTY_PAIRS, 'pair')
         if name == 'empty_strs':
             return VSeq(z3.Empty(so.StrSeq), 'str')
+        if name == 'in_strs':
+            return VBool(z3.Select(args[1].t, args[0].t))
+        if name == 'strs_remove':
+            return VSetStr(z3.Store(args[0].t, args[1].t, z3.BoolVal(False)))
         if name == 'seq_update':
             sq = eng.to_seq(args[0], st)
             k, t = eng.elem_term(args[2], st)
